@@ -131,7 +131,7 @@ func ObserveView(fsys scalibrfs.FS, probes []string) *ViewObs {
 			}
 			n := NodeObs{Type: typeOf(d.Type())}
 			if info, err := d.Info(); err == nil {
-				n.Perm = uint32(info.Mode().Perm())
+				n.Perm = tarModeBits(info.Mode())
 				if n.Type == "f" {
 					n.Size = info.Size()
 				}
@@ -169,7 +169,7 @@ func ObserveView(fsys scalibrfs.FS, probes []string) *ViewObs {
 			v.Look[p] = n
 			continue
 		}
-		n := NodeObs{Type: typeOf(info.Mode()), Perm: uint32(info.Mode().Perm())}
+		n := NodeObs{Type: typeOf(info.Mode()), Perm: tarModeBits(info.Mode())}
 		if n.Type == "f" {
 			n.Size = info.Size()
 			data, err := readAll(fsys, p)
@@ -192,4 +192,20 @@ func ObserveImage(img *image.Image, probes []string) ([]*ViewObs, []scalibrimage
 		out = append(out, ObserveView(cl.FS(), probes))
 	}
 	return out, cls
+}
+
+// tarModeBits renders the permission and setuid/setgid/sticky bits of m the way a tar header
+// spells them (0o4000 / 0o2000 / 0o1000 above the nine permission bits).
+func tarModeBits(m fs.FileMode) uint32 {
+	b := uint32(m.Perm())
+	if m&fs.ModeSetuid != 0 {
+		b |= 0o4000
+	}
+	if m&fs.ModeSetgid != 0 {
+		b |= 0o2000
+	}
+	if m&fs.ModeSticky != 0 {
+		b |= 0o1000
+	}
+	return b
 }
